@@ -504,4 +504,29 @@ Proof.
   pose proof (Forall_nth_error _ _ _ _ Hq Hn) as Hidle. cbn in Hidle. congruence.
 Qed.
 
+(* ---------------- options that must not matter ---------------- *)
+
+Definition same_cert_params (cfg cfg' : config) : Prop :=
+  cfg_ca cfg = cfg_ca cfg' /\ cfg_key cfg = cfg_key cfg' /\ cfg_org cfg = cfg_org cfg'
+  /\ cfg_validity cfg = cfg_validity cfg'.
+
+(* SkipTLSVerify and the H2 configuration occur in no certificate decision:
+   re-verification of a hit, minting, the whole GetCertificate and every step
+   of every requester are the same function of (CA, key, organization,
+   validity) whatever those options are.  In particular an expired cached
+   certificate is re-minted with SkipTLSVerify(true) exactly as without. *)
+Lemma options_do_not_enter_the_decision : forall cfg cfg',
+  same_cert_params cfg cfg' ->
+  (forall c n t, x509_verify parse_ip cfg c n t = x509_verify parse_ip cfg' c n t)
+  /\ (forall n h t1 t2, issue parse_ip cfg n h t1 t2 = issue parse_ip cfg' n h t1 t2)
+  /\ (forall st a sni t t1 t2,
+        get_cert parse_ip cfg st a sni t t1 t2 = get_cert parse_ip cfg' st a sni t t1 t2)
+  /\ (forall s l, step parse_ip cfg s l = step parse_ip cfg' s l)
+  /\ (forall a sni vname r tv,
+        answer_ok parse_ip cfg a sni vname r tv = answer_ok parse_ip cfg' a sni vname r tv).
+Proof.
+  intros [ca k o v sk h2] [ca' k' o' v' sk' h2'] [H1 [H2 [H3 H4]]]. cbn in *. subst.
+  repeat split; reflexivity.
+Qed.
+
 End WithParseIP.
